@@ -7,11 +7,11 @@ import coqlit as L
 
 ID = "C05"
 COQ_PROPERTY_FILE = "Properties/C05.v"
-COQ_DEPS = ["Common/ObsHash.v", "Model/StepCounter.v", "Proofs/StepCounterProofs.v"]
+COQ_DEPS = ["Common/ObsHash.v", "Generated/Tables.v", "Model/StepCounter.v", "Proofs/StepCounterProofs.v"]
 COQ_IMPORTS = "From Mesa Require Import Model.StepCounter."
 COQ_CASE_TYPE = "case"
 COQ_RUN = "run_case"
-TABLE_CONSTRUCTS = []
+TABLE_CONSTRUCTS = ["wrapped_step_order", "run_model_loop"]
 RULE = ("histories = 1-3 Model subclass hierarchies of depth 0-6 built with type() (each level: defines step or not, "
         "fixed arity 0-2 or *args/**kwargs, calls super().step() forwarding its arguments or none, clears running "
         "at a threshold, raises at a step number) + 1-4 instances (several of one class too) + 4-30 interleaved "
@@ -22,6 +22,7 @@ RULE = ("histories = 1-3 Model subclass hierarchies of depth 0-6 built with type
 TRUSTED_BASE = [
     "Coq 8.16.1 kernel (coqc); vm_compute used for evaluating the model in the correspondence and for the examples",
     "no axioms: Print Assumptions reports 'Closed under the global context' for every C05 theorem",
+    "harness/tables/registry.py (T1) extracting the statement order of _wrapped_step, the rebinding in __init__ and the run_model loop",
     "harness/props/C05.py driver+observer and the Gallina literal printer (T2, differential testing, not a proof)",
     "Model/StepCounter.v is a hand transcription of Model.__init__ (step rebinding), _wrapped_step, run_model and of "
     "CPython attribute lookup (instance attribute before class attribute, MRO = first definer, super() = next "
